@@ -327,6 +327,33 @@ def _cap_loop(ctx: Ctx, f, l: Event, cap_attr: str, label: str, outer: Optional[
     ctx.check(pop == want_pop, f, l.node, f"{label}: population", want_pop, pop)
 
 
+def _zip_overdraw(ctx: Ctx, f: Any, cap: str) -> bool:
+    """`zip(<lazy consultation>, range(cap))`: zip advances its arguments from the left and notices
+    the exhausted range only after it has advanced the consultation once more, so one agent beyond
+    the cap is asked (and its orders dropped).  Reported where the lazy argument asks agents."""
+    import ast as _ast
+
+    gens = {name: g for name, g in f.nested.items() if any(isinstance(x, (_ast.Yield, _ast.YieldFrom)) for x in _ast.walk(g.node))}
+    hit = False
+    for node in _ast.walk(f.node):
+        if not (isinstance(node, _ast.Call) and isinstance(node.func, _ast.Name) and node.func.id == "zip" and len(node.args) >= 2):
+            continue
+        for i, a in enumerate(node.args[:-1]):
+            lazy = None
+            if isinstance(a, _ast.Call) and isinstance(a.func, _ast.Name) and a.func.id in gens:
+                lazy = gens[a.func.id].node
+            elif isinstance(a, _ast.GeneratorExp):
+                lazy = a
+            if lazy is None or not any(isinstance(x, _ast.Attribute) and x.attr == "submit_orders" for x in _ast.walk(lazy)):
+                continue
+            later = node.args[i + 1:]
+            bounded = [b for b in later if isinstance(b, _ast.Call) and isinstance(b.func, _ast.Name) and b.func.id == "range" and any(isinstance(x, _ast.Attribute) and x.attr == cap for x in _ast.walk(b))]
+            if bounded:
+                hit = True
+                ctx.violated(f, node, "no agent is consulted once the cap is reached", f"the bound {cap} is tested before the next agent is asked", "zip(<lazy consultation>, range(cap)): zip advances the consultation before it finds the range exhausted, so one more agent is asked and its orders are dropped")
+    return hit
+
+
 @rule("C09.R4", "normal agents: random permutation, each asked at most once, until maxNormalOrders of them produced orders", "T7 comparator normal form + T5", floor=6)
 def r4(ctx: Ctx) -> None:
     f = ctx.func(COL)
@@ -336,6 +363,8 @@ def r4(ctx: Ctx) -> None:
             if any(e.name == "submit_orders" for bp in l.paths for e in calls(bp, into_loops=False)):
                 n += 1
                 _cap_loop(ctx, f, l, "max_normal_orders", "normal phase", p)
+    if n != 1 and _zip_overdraw(ctx, f, "max_normal_orders"):
+        return
     ctx.require(n == 1, f"{COL}: expected exactly one consultation loop")
 
 
